@@ -19,6 +19,10 @@ RULE = ("kind ctor: class in {SO2, SE2, SO3, SE3, UnitQuaternion(3x3/4x4 input),
         "any returned object holds only finite arrays of the class shape within 1e-6 of the group, never None. kind pred: "
         "membership / unit / zero / skew / identity predicates on members and perturbed members outside a 1e-6 band. "
         "Non-trivial: reflection, or magnitude in [1e-9,1e-3], or a mixed list.")
+RULE = RULE + (" Further defects / dimensions: lastrow_pattern (several wrong bottom-row entries whose sum vanishes), zero rows, whole-matrix "
+               "scaling, in-place modification after a first validation, float32 copies, memory layout of the array handed over "
+               "(column-major, transposed view, strided view, negative strides); kind accept_many: 250 general-axis rotations per "
+               "case through each primitive constructor must be accepted by the predicates.")
 ASSUMPTIONS = ["distance = lower bound from the orthogonality residual (|R'R-I|/2.5), determinant sign, exact last-row error, algebra-form residual; a value is required to be rejected above 1.05e-6 and accepted below 2e-15, in between either answer is accepted",
                "an invalid 4x4 array given to UnitQuaternion is also a legal N x 4 array of quaternions: there the oracle is 'raises or holds unit quaternions'"]
 
